@@ -336,6 +336,7 @@ type driverState struct {
 	viol     []Violation // unexplained
 	known    map[string]*knownFinding
 	kfSeen   map[string]string // kf id -> example detail
+	kfSigs   map[string]int    // "kf id <= signature" -> witnesses
 	replays  []string
 	incon    int
 	harnessE []string
@@ -523,6 +524,10 @@ func driverMain(prop, tier string) int {
 				if _, ok := d.kfSeen[kf.ID]; !ok {
 					d.kfSeen[kf.ID] = firstLine(v.Detail)
 				}
+				if d.kfSigs == nil {
+					d.kfSigs = map[string]int{}
+				}
+				d.kfSigs[kf.ID+" <= "+v.Sig]++
 				d.agg["known_finding_witnesses"]++
 				continue
 			}
@@ -600,6 +605,9 @@ func driverMain(prop, tier string) int {
 	}
 	sort.Strings(kfs)
 	cov["known_findings_reobserved"] = kfs
+	if len(d.kfSigs) > 0 {
+		cov["known_finding_signatures"] = d.kfSigs
+	}
 	if len(samples) == 0 {
 		cov["samples"] = []interface{}{"(no sample recorded)"}
 	}
@@ -757,7 +765,7 @@ func loadKnownFindings(path, prop string) map[string]*knownFinding {
 			case strings.HasPrefix(f, "kf="):
 				kf.ID = f[3:]
 			case strings.HasPrefix(f, "sig="):
-				kf.Sig = f[4:]
+				kf.Sig = strings.Replace(f[4:], "~", " ", -1) // '~' stands for a space (fields are whitespace-delimited)
 			}
 		}
 		if kf.Prop == prop && kf.ID != "" && kf.Sig != "" {
